@@ -34,7 +34,8 @@ theorem linkOrder_fields (p4 : PTable) (id : Nat) (pos : Nxt) (hpos : pos ≠ .i
     (p4.linkOrder id pos).size = p4.size + 1 ∧ (p4.linkOrder id pos).self = p4.self ∧
     (p4.linkOrder id pos).cap = p4.cap ∧ (p4.linkOrder id pos).allocated = p4.allocated ∧
     (p4.linkOrder id pos).heads = p4.heads ∧ (p4.linkOrder id pos).freeItem = p4.freeItem ∧
-    (p4.linkOrder id pos).blocks = p4.blocks := by
+    (p4.linkOrder id pos).blocks = p4.blocks ∧ (p4.linkOrder id pos).ipb = p4.ipb ∧
+    (p4.linkOrder id pos).dcap = p4.dcap := by
   unfold PTable.linkOrder
   cases hP : p4.prevOf pos with
   | none =>
